@@ -30,6 +30,9 @@ func checkC04(e *RunEnv) *CheckResult {
 	if e.Thorough() {
 		pairAlpha = []string{"a", "d", "d/x", "nope", "ad", "d-x", "d/s"}
 	}
+	if !e.Thorough() {
+		singles = singles[:len(singles)-3] // quick: without the last three un-normalised spellings
+	}
 	var argLists [][]string
 	for _, s := range singles {
 		argLists = append(argLists, []string{s})
